@@ -28,6 +28,7 @@ const (
 	zkGlobNone        // include g*.journal            (matches nothing)
 	zkHome            // include ~/zzverif_h_<tag>.journal
 	zkBig             // include big.journal           (size zBigSize: over or under the symbolic limit)
+	zkAbsDots         // include <Root>/./sub/../f<t>.journal   (absolute, with "." and ".." segments)
 )
 
 const zBigSize = 1024
@@ -130,6 +131,8 @@ func (w *zWorld) spelling(sl zSlot) string {
 		return "./f" + zzverif.Itoa(sl.tgt) + ".journal"
 	case zkAbs:
 		return w.path(sl.tgt)
+	case zkAbsDots:
+		return w.root + "/./sub/../f" + zzverif.Itoa(sl.tgt) + ".journal"
 	case zkDangling:
 		return "nope.journal"
 	case zkGlobAll:
@@ -156,7 +159,7 @@ func (w *zWorld) targets(node, s int) []string {
 		return nil
 	}
 	switch sl.kind {
-	case zkRel, zkDotRel, zkAbs:
+	case zkRel, zkDotRel, zkAbs, zkAbsDots:
 		return []string{w.path(sl.tgt)}
 	case zkDangling:
 		return []string{w.root + "/nope.journal"}
@@ -257,7 +260,7 @@ func (w *zWorld) chooseSlot(name string, node, s int) zSlot {
 		}
 		for _, k := range w.extra[s] {
 			switch k {
-			case zkDotRel, zkAbs:
+			case zkDotRel, zkAbs, zkAbsDots:
 				// alternative spellings name the cyclic successor of the includer
 				opts = append(opts, opt{kind: k, tgt: (node + 1) % w.n})
 			default:
